@@ -29,7 +29,7 @@ SameGroup(a, b) == a.deck = b.deck /\ a.table = b.table
 
 LineBad(ln) ==
   (IF Len(ln.results) = 1 THEN {} ELSE {"C03.oneResultPerClass"}) \cup
-  (IF Open(ln) \/ \A k \in 1..Len(ln.results) : ln.results[k][1] = RefCat(Hand(ln)) THEN {} ELSE {"C03.category"})
+  (IF Open(ln) \/ \A k \in 1..Len(ln.results) : ln.results[k][1] = CatName(RefCat(Hand(ln))) THEN {} ELSE {"C03.category"})
 PairBad(a, b) ==
   LET sa == a.results[1][2]  sb == b.results[1][2]
       ka == RefKey(Hand(a), Tbl(a))  kb == RefKey(Hand(b), Tbl(b)) IN
